@@ -10,7 +10,7 @@
      - angle(D,H,A) > theta                  is decided as   cos < cos(theta), the cosine from the law of
        cosines on the three squared distances, compared with a rational kn/kd after squaring    (exact)
      - cos(theta) from theta in degrees, the Wernet-Nilsson cone and the Kabsch-Sander energy need cos,
-       sqrt and 1/sqrt: evaluated in 2^-64 fixed point (Z.sqrt, Taylor series).  These are numerical
+       sqrt and 1/sqrt: evaluated in 2^-44 fixed point (Z.sqrt, Taylor series).  These are numerical
        evaluations with error far below the guard band of the property (1e-5); nothing is proved about
        their accuracy (validated by the correspondence only). *)
 From Coq Require Import List ZArith Bool Arith.
@@ -99,12 +99,12 @@ Definition cos_lt (N A B kn kd : Z) : bool :=
        else (L <? 0) && (4 * sq kn * (A * B) <? sq L).
 
 (* ================================================================= fixed-point helpers (numerical) *)
-Definition SC : Z := 2 ^ 64.
+Definition SC : Z := 2 ^ 44.
 Definition fx_of_q (n d : Z) : Z := n * SC / d.
 Definition fx_mul (a b : Z) : Z := a * b / SC.
 Definition fx_div (a b : Z) : Z := a * SC / b.
 Definition fx_sqrt (a : Z) : Z := Z.sqrt (a * SC).
-Definition PI_fx : Z := 57952155664616982739.   (* round(pi * 2^64) *)
+Definition PI_fx : Z := 57952155664616982739 * SC / 2 ^ 64.   (* pi, from round(pi * 2^64) *)
 
 (* cos x = sum (-1)^k x^(2k)/(2k)!, 24 terms: enough for |x| <= pi *)
 Fixpoint cos_terms (k : nat) (i : Z) (x2 term : Z) : Z :=
@@ -137,7 +137,10 @@ Definition bh_wide (p : bh_params) (f : frame) (t : triplet) : bool :=
     cos_lt (a2 + b2 - c2) a2 b2 (fst (bh_cos p)) (snd (bh_cos p))
   end.
 
-Definition bh_presence (p : bh_params) (f : frame) (t : triplet) : bool := bh_close p f t && bh_wide p f t.
+(* np.logical_and(distances < distance_cutoff, angles > angle_cutoff); written with if so that the
+   evaluation inside coqc does not compute the angle of far-apart atoms *)
+Definition bh_presence (p : bh_params) (f : frame) (t : triplet) : bool :=
+  if bh_close p f t then bh_wide p f t else false.
 
 Definition count (q : frame -> bool) (fs : list frame) : Z := Z.of_nat (length (filter q fs)).
 
@@ -176,7 +179,8 @@ Definition wn_presence (p : wn_params) (f : frame) (t : triplet) : bool :=
     let c2 := dist2 (wn_periodic p) f h a in
     let r_fx := fx_sqrt (a2 * SC) / wn_G p in                      (* |AD| in nm *)
     let slack := fx_of_q (fst (wn_cut p)) (snd (wn_cut p)) - r_fx in
-    if slack <=? 0 then false
+    if negb (dist_lt a2 (fst (wn_cut p) * wn_G p) (snd (wn_cut p))) then false   (* r >= cut, decided exactly *)
+    else if slack <=? 0 then false
     else if a2 * b2 <=? 0 then false
     else
       let x := fx_div slack (fx_of_q (fst (wn_const p)) (snd (wn_const p))) in   (* degrees^2 *)
